@@ -80,6 +80,12 @@ pub fn exec(case: &Value) -> Value {
         Ok(e) => e,
         Err(e) => return e,
     };
+    // a clone is as good as the original: every other case scans with one
+    let n_rules = case["rules"].as_array().map(|a| a.len()).unwrap_or(0);
+    let n_events = case["events"].as_array().map(|a| a.len()).unwrap_or(0);
+    if (n_rules + n_events) % 2 == 1 {
+        eng = eng.clone();
+    }
     let mut outs = vec![];
     for ev in case["events"].as_array().cloned().unwrap_or_default() {
         match event_from_json(&ev) {
